@@ -132,8 +132,29 @@ def whole_call_stage(ctx):
         with open(tp, "a") as out:
             out.write(open(tr).read())
         ctx.cov["whole_call_histories"] = len(hists) + nrand
-        ctx.validate("QS", "QsWholeTrace", "QsWholeTrace.cfg", tp, "qs whole-call conformance with QsInd (tour + long random runs)",
-                     keyfn=lambda rj, lines: "C11/whole/%s" % rj["clause"])
+        # QsInd is implementation-shaped (exact counters): a call whose net effect differs from it is MODEL-DRIFT, not a
+        # verdict; only the ghost-based clause (a callback while an owed agent has not quiesced) and crashes accuse
+        v = tlc.validate_trace(os.path.join(core.VERIF, "spec", "QS"), "QsWholeTrace", "QsWholeTrace.cfg", tp)
+        if v.infra:
+            raise core.Infra(v.infra)
+        ctx.cov["stages"].append({"stage": "qs whole-call conformance with QsInd (tour + long random runs)", "events": v.events,
+                                  "executions": v.executions, "checked_steps": v.checked, "rejections": len(v.rejects)})
+        ctx.cov["traces_validated_against_impl"] += v.executions
+        ctx.log("validated qs whole-call conformance: %d executions, %d events, %d checked steps, %d rejections" % (v.executions, v.events, v.checked, len(v.rejects)))
+        lines = open(tp).readlines()
+        drift = [rj for rj in v.rejects if rj["pid"] == "DRIFT"]
+        if drift:
+            d0 = drift[0]
+            msg = "whole-call effect differs from QsInd (%s) at %s" % (d0["clause"], lines[d0["line"] - 1].strip()[:200])
+            print("MODEL-DRIFT component=qs/whole-call first-divergence=%s (QsInd no longer describes the code; its Apalache result says nothing about this tree; property-layer checks still apply)" % msg)
+            ctx.notes.append("MODEL-DRIFT qs/whole-call: %d executions diverge; %s" % (len(drift), msg))
+        for rj in v.rejects:
+            if rj["pid"] == "C11":
+                a = rj["line"]
+                while a > 1 and not lines[a - 1].startswith('{"e":"Reset"'):
+                    a -= 1
+                ctx.report("C11/whole/%s" % rj["clause"], "whole-call trace rejected at line %d: clause %s; event %s" % (rj["line"], rj["clause"], lines[rj["line"] - 1].strip()[:300]),
+                           artefact_lines=lines[a - 1:rj["line"]])
     finally:
         tlc.COMMON = old
 
